@@ -160,6 +160,13 @@ def handle : Handler := fun op args =>
         match Interp.locate ox.N ox.x ox.st a, Interp.locate oy.N oy.x oy.st b with
         | .ok (i, _), .ok (j, _) => ans (interp2EvalGuard ox.N ox.x ox.st oy.N oy.x oy.st a b) (interp2EvalReads ox.N oy.N i j)
         | _, _ => ans (interp2EvalGuard ox.N ox.x ox.st oy.N oy.x oy.st a b)
+  | "c10.mat.resize" | "c10.mat.assign" => withArgs (do let r ← pInt; let c ← pInt; pure (r, c)) args fun (r, c) => ans (matDimsGuard r c)
+  | "c10.integmc.shape" => withArgs (do let m ← pMethod; let n ← pInt; let rs ← pNat; pure (m, n, rs)) args fun (m, n, rs) => ans (integrateMCShapeGuard rs n m)
+  | "c10.simplex.delta" => withArgs pNat args fun n => ans (simplexDeltasGuard n n)
+  | "c10.simplex.deltas" => withArgs p2 args fun (n, m) => ans (simplexDeltasGuard n m)
+  | "c10.simplex.pp" => withArgs pNats args fun lens => ans (simplexGuard lens)
+  | "c10.mean" | "c10.median" => withArgs pNat args fun n => ans (dataLengthGuard 1 n)
+  | "c10.variance" | "c10.stddev" | "c10.wavg" => withArgs pNat args fun n => ans (dataLengthGuard 2 n)
   -- 4. Find_Root
   | "c10.findroot" => withArgs (do let a ← pOptRat; let b ← pOptRat; pure (a, b)) args fun (a, b) => ans (findRootGuard a b)
   -- 5. Integration
@@ -167,6 +174,8 @@ def handle : Handler := fun op args =>
   | "c10.integ2" | "c10.integ3" | "c10.integ3s" => withArgs pMethod args fun m => ans (integrateNDGuard m)
   | "c10.integmc" => withArgs pMethod args fun m => ans (integrateMCGuard m)
   | "c10.integmc.hist" => withArgs (pList pMethod) args fun ms => ans (seqGuard (ms.map integrateMCGuard))
+  | "c10.glrows" => withArgs (do let n ← pNat; let lens ← pNats; pure (n, lens)) args fun (n, lens) => ans (gaussLegendreRowsGuard n lens)
+  | "c10.glfunc" => withArgs pNats args fun lens => ans (gaussLegendreFuncGuard lens)
   | "c10.gl" => withArgs p2 args fun (n, m) => ans (gaussLegendreGuard n m) (gaussLegendreReads (ones n) (List.replicate m [1, 1]))
   -- 6. Special functions
   | "c10.factorial" => withArgs pNat args fun n => ans (factorialGuard n)
